@@ -17,7 +17,7 @@ def plans(ctx):
                 R.Plan("unk", "S_unk", emit_mod=200, max_inst=1, max_pw=2),
                 R.Plan("drone", "S_drone", emit_mod=12, max_inst=1, max_pw=2)]
     return [R.Plan("q1", "S_q1", emit_mod=8, max_inst=1, max_pw=2),
-            R.Plan("q1i2", "S_q1", emit_mod=25, max_inst=2, max_pw=2, stray=1, also=R.crowd_also(1500)),
+            R.Plan("q1i2", "S_q1", emit_mod=150, max_inst=2, max_pw=2, stray=1, also=R.crowd_also(1500)),
             R.Plan("t1a", "S_t1a", emit_mod=12, max_inst=1, max_pw=1),
             R.Plan("t1b", "S_t1b", emit_mod=8, max_inst=1, max_pw=2),
             R.Plan("t1c", "S_t1c", emit_mod=25, max_inst=1, max_pw=2),
